@@ -26,7 +26,7 @@ RULE = ("in-memory mapsets: built from objects (1-3 charts sharing one tempo lis
         "measure lines or on 1/16 beats, objects on grids of denominators 1-9,12,16,32,48,64,96 and off-grid, measures "
         "needing > 384 rows, empty leading measures, selectable False, header strings, fractional-millisecond offsets), "
         "obtained by SMMapSet.read of a generated text, by OsuToSM / QuaToSM conversion of a generated osu!mania / Quaver map, "
-        "and by rate(); non-trivial = at least 3 objects and (a hold/roll, or 2 tempo points, or an empty "
+        "and by rate(); tempo rows out of time order (reversed / shuffled / appended); histories on one object: write, then an in-place edit through the list property setters (bpm scaling, shifting the whole timeline), an appended tempo row, rate() or nothing, then write again — every write is judged; non-trivial = at least 3 objects and (a hold/roll, or 2 tempo points, or an empty "
         "leading measure, or a capped measure)")
 ASSUMPTIONS = [
     "header strings contain no ';' ':' '#' '//' and no surrounding whitespace (MSD has no escape in this writer)",
@@ -162,7 +162,40 @@ def gen(rng, tier, i):
     rate = R(rng.choice([0.5, 2.0, 1.5, 0.75])) if rng.random() < 0.12 else None
     if via is not None:
         return dict(claim="write", origin="convert", via=via, mode=mode, style=style, hdr=hdr, bpms=bpms, charts=charts, rate=rate)
-    return dict(claim="write", origin="built", mode=mode, style=style, hdr=hdr, bpms=bpms, charts=charts, rate=rate)
+    case = dict(claim="write", origin="built", mode=mode, style=style, hdr=hdr, bpms=bpms, charts=charts, rate=rate)
+    if len(bpms) >= 2 and rng.random() < 0.35:
+        perm = list(range(len(bpms)))
+        if rng.random() < 0.4:
+            perm.reverse()
+        else:
+            rng.shuffle(perm)
+        case["bpm_perm"] = perm          # tempo rows not in time order
+    if rng.random() < 0.25:
+        steps = []
+        case["rate"] = None
+        for _ in range(rng.choice([1, 1, 2])):
+            k = rng.choice(["scale_bpm", "shift_all", "rate", "append_bpm", "rewrite"])
+            if k == "append_bpm" and steps:
+                k = "rewrite"           # (the appended point is placed relative to the original timeline)
+            if k == "scale_bpm":
+                steps.append([k, R(rng.choice([2.0, 0.5, 1.5]))])
+            elif k == "shift_all":
+                steps.append([k, R(rng.choice([1000.0, 250.0, 37.5]))])
+            elif k == "rate":
+                steps.append([k, R(rng.choice([2.0, 0.5, 1.25]))])
+            elif k == "append_bpm":
+                # a tempo point on a measure line of the last tempo, two to five measures after it (appended: out of order when followed by a later edit)
+                last_o, last_b = F(bpms[-1][0]), F(bpms[-1][1])
+                if len(bpms) >= 2 and rng.random() < 0.6:
+                    j = rng.randrange(len(bpms) - 1)          # between two existing points: the list is no longer in time order
+                    o = (F(bpms[j][0]) + F(bpms[j + 1][0])) / 2
+                else:
+                    o = last_o + rng.randint(2, 5) * 4 * Fr(60000) / last_b
+                steps.append([k, [R(float(o)), R(float(rng.choice(E_BPMS)))]])
+            else:
+                steps.append([k])
+        case["history"] = steps
+    return case
 
 
 def corpus():
@@ -211,6 +244,23 @@ def valid(case):
                 return False
         if set(case["hdr"]["strs"]) != set(ATTR.values()):
             return False
+        perm = case.get("bpm_perm")
+        if perm is not None and (not isinstance(perm, list) or sorted(perm) != list(range(len(case["bpms"])))):
+            return False
+        for st in case.get("history") or []:
+            if st[0] in ("scale_bpm", "rate"):
+                if not (Fr(1, 4) <= F(st[1]) <= 4):
+                    return False
+            elif st[0] == "shift_all":
+                if not (0 <= F(st[1]) <= 100000):
+                    return False
+            elif st[0] == "append_bpm":
+                if st is not case["history"][0] or case.get("rate") is not None:
+                    return False
+                if not (20 <= F(st[1][1]) <= 2000) or not (offs[0] < F(st[1][0]) < offs[0] + 600000) or F(st[1][0]) in offs:
+                    return False
+            elif st[0] != "rewrite":
+                return False
         for c in case["charts"]:
             if c["type"] not in KEYED or not isinstance(c["meter"], int) or not c["radar"]:
                 return False
@@ -256,7 +306,7 @@ def build_mapset(case):
             sm = SMMap()
             sm.chart_type, sm.description, sm.difficulty, sm.difficulty_val = c["type"], c["desc"], c["diff"], c["meter"]
             sm.groove_radar = [float(F(x)) for x in c["radar"]]
-            sm.bpms = SMBpmList([SMBpm(float(F(o)), float(F(b))) for o, b in case["bpms"]])
+            sm.bpms = SMBpmList([SMBpm(float(F(o)), float(F(b))) for o, b in ordered_bpms(case)])
             for kind, cls, attr in (("hit", SMHitList, "hits"), ("mine", SMMineList, "mines"), ("lift", SMLiftList, "lifts"),
                                     ("fake", SMFakeList, "fakes"), ("keysound", SMKeySoundList, "keysounds")):
                 rows = [dict(offset=float(F(n[2])), column=n[1]) for n in c["notes"] if n[0] == kind]
@@ -273,6 +323,45 @@ def build_mapset(case):
         pre = ms
         ms = ms.rate(float(F(case["rate"])))
     return ms, pre
+
+
+def ordered_bpms(case):
+    """the tempo rows in the order the case asks for (`bpm_perm`: a permutation of their indices; rows out of time
+    order are what `append(..., sort=False)` / stacking produce)"""
+    b = case["bpms"]
+    perm = case.get("bpm_perm")
+    if isinstance(perm, list) and sorted(perm) == list(range(len(b))):
+        return [b[i] for i in perm]
+    return b
+
+
+def apply_step(ms, step):
+    """one edit of the in-memory mapset between two writes; returns (mapset, mapset the domain condition refers to)"""
+    from reamber.sm.SMBpm import SMBpm
+    k = step[0]
+    if k == "rate":
+        return ms.rate(float(F(step[1]))), ms
+    if k == "scale_bpm":               # in place, through the list's property setter
+        f = float(F(step[1]))
+        for m in ms.maps:
+            m.bpms.bpm = m.bpms.bpm * f
+        return ms, None
+    if k == "shift_all":               # in place: the whole timeline moves
+        d = float(F(step[1]))
+        for m in ms.maps:
+            m.bpms.offset = m.bpms.offset + d
+            for lst in (m.hits, m.holds, m.mines, m.lifts, m.fakes, m.keysounds, m.rolls):
+                if len(lst):
+                    lst.offset = lst.offset + d
+        ms.offset = ms.offset + d
+        return ms, None
+    if k == "append_bpm":              # a new tempo row at the end of the list (not in time order)
+        for m in ms.maps:
+            m.bpms = m.bpms.append(SMBpm(float(F(step[1][0])), float(F(step[1][1]))))
+        return ms, None
+    if k == "rewrite":                 # nothing changes: a second write of the same object
+        return ms, None
+    raise ValueError("unknown step %r" % (k,))
 
 
 def convert_source(case):
@@ -406,14 +495,39 @@ def tempo_on_lines(bpms):
 def run(case, drv):
     logging.disable(logging.WARNING)
     tags = [case["origin"]] + ([case["style"], case["mode"]] if case["origin"] in ("built", "convert") else []) + \
-        (["via-" + case["via"]] if case.get("via") else []) + (["rate"] if case.get("rate") else [])
-    detail = {}
+        (["via-" + case["via"]] if case.get("via") else []) + (["rate"] if case.get("rate") else []) + \
+        (["bpm-unsorted"] if case.get("bpm_perm") and case["bpm_perm"] != sorted(case["bpm_perm"]) else [])
     try:
         ms, ms_pre = build_mapset(case)
     except Exception as e:
         # the source mapset could not be produced (e.g. a read error): not this property's subject
         return dict(claim="write", ok=True, agree=True, dom=False, kf=None, tags=tags + ["no-mapset"], nontrivial=False,
                     detail=dict(exc=repr(e)[:200]))
+    # every write of the history is judged: the first one, and one after each edit of the same object
+    res = _judge(case, ms, ms_pre, drv, list(tags))
+    for n, step in enumerate(case.get("history") or []):
+        if not (res["ok"] and res["agree"]):
+            break
+        try:
+            ms, pre = apply_step(ms, step)
+        except Exception as e:
+            res["tags"].append("step-failed")
+            res["detail"] = dict(res.get("detail") or {}, step_exc=repr(e)[:200])
+            break
+        r2 = _judge(case, ms, pre, drv, list(tags) + ["after-" + str(step[0])])
+        r2["nontrivial"] = bool(r2.get("nontrivial") or res.get("nontrivial"))
+        r2["maxdev"] = max(r2.get("maxdev", 0.0), res.get("maxdev", 0.0))
+        r2["boundary"] = bool(r2.get("boundary") or res.get("boundary"))
+        r2["dom"] = bool(r2.get("dom") and res.get("dom"))
+        if not (r2["ok"] and r2["agree"]):
+            r2["detail"] = dict(r2.get("detail") or {}, failing_write=n + 2, step=step)
+        res = r2
+    return res
+
+
+def _judge(case, ms, ms_pre, drv, tags):
+    """one write of `ms`: (C) the text's structure vs the model, (S) the text denotes the mapset"""
+    detail = {}
     content = extract(ms)
     # the property's domain (#OFFSET = first tempo point) is a condition on the mapset before a rate change
     dom_src = extract(ms_pre) if ms_pre is not None else content
@@ -428,8 +542,8 @@ def run(case, drv):
     agree, ok = True, True
     why = []
     same_tempo = all(c["bpms"] == content["charts"][0]["bpms"] for c in content["charts"]) if content["charts"] else True
-    first_off = content["charts"] and content["charts"][0]["bpms"] and F(content["charts"][0]["bpms"][0][0])
-    src_first = dom_src["charts"] and dom_src["charts"][0]["bpms"] and F(dom_src["charts"][0]["bpms"][0][0])
+    first_off = content["charts"] and content["charts"][0]["bpms"] and min(F(b[0]) for b in content["charts"][0]["bpms"])
+    src_first = dom_src["charts"] and dom_src["charts"][0]["bpms"] and min(F(b[0]) for b in dom_src["charts"][0]["bpms"])
     in_q = bool(content["charts"]) and same_tempo and content["charts"][0]["bpms"] != [] and \
         close(F(dom_src["hdr"]["offset"]), src_first) and all(c["chart_type"] in KEYED for c in content["charts"]) and \
         all(F(n[2]) >= first_off - Fr(1, 2 ** 20) and 0 <= n[1] < KEYED[c["chart_type"]]
